@@ -120,7 +120,7 @@ class LightDrv(Driver):
         return rng.choice([-0.0001, 1.0001, 2.0])
 
     def boundary_cases(self):
-        for v in range(0, 256, 5):
+        for v in range(0, 256):
             yield {"cls": "Light", "cfg": {"kw": {}, "ga": [_ga("switch"), _ga("brightness"), _ga("tunable_white")]}, "pre": [],
                    "calls": [["set_brightness", [I(v)]], ["set_tunable_white", [I(255 - v)]]]}
         allc = [_ga(f"brightness_{c}") for c in COLORS]
